@@ -52,6 +52,11 @@ ASSUMPTIONS = [
     "(other component exactly 0.0) in sliding, sticking and open-compressive cells, all-zero "
     "tangential vectors in the clearly open cells; arguments of non-smooth functions that "
     "are switched off by an exact zero factor in their cell are not part of the kink margin",
+    "poromechanics / thermoporomechanics with fractures additionally get the letters negjump "
+    "(quick) / negjump, negjump2 (thorough): normal displacement jumps at -0.5, -0.8 (-0.3, "
+    "-0.65) times the residual aperture in two of three fracture cells (non-converged iterates "
+    "under compression; the aperture max sits on its constant branch with positive first "
+    "argument), residual aperture 0.1 and, in extra configurations, 0.05",
     "finite differences: 6th-order central stencil, steps h in {1e-3, 1e-2, 1e-4}; a "
     "column is accepted when the best rung agrees to 1e-6*(|J|_max+1); measured floor on "
     "the unchanged tree <= 1e-10",
@@ -92,9 +97,12 @@ def _nshard(cfg, tier):
     return max(1, int(math.ceil(cost / TARGET[tier])))
 
 
-def _cfg(fam, dim, fracs, grid="cart", fluid="comp", laws="basic", grav=False):
-    return {"fam": fam, "dim": dim, "fracs": list(fracs), "grid": grid, "fluid": fluid,
-            "laws": laws, "grav": bool(grav), "dt": 0.5}
+def _cfg(fam, dim, fracs, grid="cart", fluid="comp", laws="basic", grav=False, ares=None):
+    c = {"fam": fam, "dim": dim, "fracs": list(fracs), "grid": grid, "fluid": fluid,
+         "laws": laws, "grav": bool(grav), "dt": 0.5}
+    if ares is not None:
+        c["ares"] = float(ares)  # residual aperture other than 0.1
+    return c
 
 
 def _configs(tier):
@@ -105,7 +113,7 @@ def _configs(tier):
         out += [_cfg("mom", 2, []), _cfg("mom", 2, [0]), _cfg("mom", 2, [0], laws="rich", grav=True), _cfg("mom", 3, [0]),
                 _cfg("mom", 3, [0], laws="rich")]
         out += [_cfg("poro", 2, [0]), _cfg("poro", 2, [0], laws="rich", grav=True), _cfg("poro", 2, [0], laws="adtpfa"),
-                _cfg("poro", 3, [0])]
+                _cfg("poro", 3, [0]), _cfg("poro", 2, [0], ares=0.05)]
         out += [_cfg("thm", 2, [0]), _cfg("thm", 2, [0], laws="rich", grav=True)]
         return out
     geoms = [(2, [], "cart"), (2, [0], "cart"), (2, [1], "cart"), (2, [0, 1], "cart"),
@@ -114,6 +122,9 @@ def _configs(tier):
     for fam in ("flow", "mae"):
         # non-matching fracture / mortar grids (projections with non-trivial weights)
         out.append(_cfg(fam, 2, [0, 1], "nonmatch"))
+    for fam in ("poro", "thm"):
+        for fr in ([0], [0, 1]):
+            out.append(_cfg(fam, 2, fr, ares=0.05))
     for fam in G.FAMILIES:
         for dim, fr, grid in geoms:
             has_frac = len(fr) > 0
@@ -139,8 +150,17 @@ def _aligned(cfg):
     return []
 
 
+def _negjump(tier, cfg):
+    """Normal jumps inside (-residual_aperture, 0): models with a jump dependent aperture."""
+    if cfg["fracs"] and cfg["fam"] in ("poro", "thm"):
+        return ["negjump"] if tier == "quick" else list(G.NEGJUMP_LETTERS)
+    return []
+
+
 def _letters(tier, cfg):
-    return _base_letters(tier, cfg) + _aligned(cfg)
+    if "ares" in cfg:
+        return _negjump(tier, cfg)
+    return _base_letters(tier, cfg) + _aligned(cfg) + _negjump(tier, cfg)
 
 
 def _base_letters(tier, cfg):
